@@ -180,6 +180,12 @@ def check(spec):
             with impl("groupby", **sig):
                 lazy = apply_groupby(case.ddf, g, a, envd)
                 meta = lazy._meta
+                # signature label only: does the lowered reduction shuffle the partial results (explicit split_out > 1,
+                # or dask's default for many partitions)?  The shuffle is where partition order gets lost.
+                try:
+                    sig["lowering_shuffle"] = any("Shuffle" in type(n).__name__ for n in lazy.optimize(fuse=False).expr.walk())
+                except Exception:  # noqa: BLE001 - label only; a failure is reported by the compute below
+                    sig["lowering_shuffle"] = False
                 got = F.compute(lazy)
         except Violation as v:
             cause = v.__cause__
